@@ -236,6 +236,7 @@ def run(ctx):
     tasks += [(shard_fetch, (ctx.shard_seed(100 + i), ctx.n(800, 15000))) for i in range(4)]
     tasks += [(e1prop.shard, ('vf.props.c13:PLAN', ctx.shard_seed(200 + i), ctx.n(300, 6000))) for i in range(16)]
     tasks += [(e1prop.shard, ('vf.props.c13:PLAN_DUAL', ctx.shard_seed(300 + i), ctx.n(150, 3000))) for i in range(8)]
+    tasks += e1prop.history_tasks(ctx, 'vf.props.c13:PLAN')
     ctx.pmap(_dispatch, tasks)
     for b, v in list(ctx.acc.viol.items()):
         if isinstance(v['case'], dict) and 'poke' in v['case']:
